@@ -1,4 +1,5 @@
 import AlgoVerif.Model.C16
+import AlgoVerif.Model.C16X
 /-!
 Line-protocol component for C16.
 
@@ -6,9 +7,19 @@ Line-protocol component for C16.
         kinds: u unordered, s stable, sorted with comparator a: sign of `a-b` (ascending), d: sign of `b-a` (descending),
                b: `a-b`, c: `7*(a-b)`, e: `b-a` (comparators whose values are not normalised)
     add i v…  remove i v…  removeall i  contains i v…  size i  isempty i  all i  string i
-    equal i j  subset i j  superset i j  clone d i  cloneempty d i  new d k v…
+    equal i j  subset i j  superset i j  clone d i  cloneempty d i  new d k v…  newf d k F v…
     union d i j…  inter d i j…  diff d i j…  powerset i  partitions i  powermut i v  partmut i v
+    powerstr i  partstr i
     anymatch i P  allmatch i P  firstmatch i P  select d i P  partition d e i P     P ∈ ge:<k> lt:<k> odd even
+
+`newf d k F v…` is `NewWithFormat` / `NewStableWithFormat` / `NewSortedWithFormat` (by kind `k`) with the custom
+format `F` ∈ A: `<a;b>`, B: `[a|b]`, N: `2:(a b)` (the number of members first); every other constructor stores the
+default `{a, b}`.  `string i`, and the result lines of union/inter/diff/select/partition, print `String()` of
+the set object — in whatever format it carries (`Model/C16X.lean`); `powerstr i` / `partstr i` print
+`Powerset(s).String()` / `Partitions(s).String()` (containers in the default format over the members' own
+`String()`, in stored order).  A header key `src=global` (the harness then leaves the package's own random
+source in place) is ignored here: such cases only contain operations whose output does not depend on the
+iteration order of an unordered set.
 
 Values are `Int`.  The harness installs (through the verif hook `VerifSetShuffleSource`) a scripted
 `rand.Source` — a 32-bit LCG started at `sh` — behind the package-level `r` of /repo/set, and this file
@@ -72,6 +83,15 @@ def implOf : Char → Option (Impl Int)
   | 'e' => some (.sorted cmpRevSub)
   | _ => none
 
+def pvI : Int → String := fun v => toString v
+
+/-- the custom formats the harness passes to `New…WithFormat` -/
+def fmtOf : String → Option (StringFormat Int)
+  | "A" => some fun ms => "<" ++ ";".intercalate (ms.map pvI) ++ ">"
+  | "B" => some fun ms => "[" ++ "|".intercalate (ms.map pvI) ++ "]"
+  | "N" => some fun ms => toString ms.length ++ ":(" ++ " ".intercalate (ms.map pvI) ++ ")"
+  | _ => none
+
 def isUnordered {α} (s : MSet α) : Bool :=
   match s.impl with
   | .unordered _ => true
@@ -109,14 +129,12 @@ def showLLL (l : List (List (List Int))) : String :=
 /-! ### the register machine: parse into `Op`, run `stepOp` of the Model, print the `Obs` -/
 
 structure St where
-  regs : List (MSet Int)
+  regs : List (FmtSet Int)
   g : UInt32
   dead : Bool := false
 
 def parseInts (ws : List String) : Option (List Int) := ws.mapM parseInt?
 def parseNats (ws : List String) : Option (List Nat) := ws.mapM parseNat?
-
-def fmtSet (l : List Int) : String := "{" ++ ", ".intercalate (l.map toString) ++ "}"
 
 /-- the predicates of the match operations -/
 def parsePred (w : String) : Option (Int → Bool) :=
@@ -127,7 +145,7 @@ def parsePred (w : String) : Option (Int → Bool) :=
   | ["even"] => some fun x => x % 2 == 0
   | _ => none
 
-def parseOp : List String → Option (Op Int)
+def parseBase : List String → Option (Op Int)
   | "add" :: i :: vs => do return .add (← parseNat? i) (← parseInts vs)
   | "remove" :: i :: vs => do return .remove (← parseNat? i) (← parseInts vs)
   | ["removeall", i] => do return .removeAll (← parseNat? i)
@@ -155,22 +173,39 @@ def parseOp : List String → Option (Op Int)
   | ["partition", d, e, i, p] => do return .partitionM (← parseNat? d) (← parseNat? e) (← parseNat? i) (← parsePred p)
   | _ => none
 
-/-- `All()` of an unordered set is printed in ascending order, of the others as yielded; the result of a
-set-algebra call is printed like `String()` prints it (member slice as stored) -/
-def showObs (regs : List (MSet Int)) : Op Int → Obs Int → String
-  | _, .unit => "ok"
-  | _, .bool b => "ok " ++ showBool b
-  | _, .int n => s!"ok {n}"
-  | .all i, .elems l =>
+def implOfWord (k : String) : Option (Impl Int) :=
+  match k.toList with
+  | [c] => implOf c
+  | _ => none
+
+def parseOp (ws : List String) : Option (OpX Int) :=
+  match parseBase ws with
+  | some op => some (.base op)
+  | none =>
+    match ws with
+    | ["string", i] => do return .string (← parseNat? i)
+    | "new" :: d :: k :: vs => do return .newWith (← parseNat? d) (← implOfWord k) (← parseInts vs)
+    | "newf" :: d :: k :: f :: vs => do
+      return .newWithFormat (← parseNat? d) (← implOfWord k) (← fmtOf f) (← parseInts vs)
+    | _ => none
+
+/-- `All()` of an unordered set is printed in ascending order, of the others as yielded; a call that returns set
+objects prints their `String()` (`strs`, from the Model) -/
+def showObs (regs : List (FmtSet Int)) : OpX Int → Obs Int → List String → String
+  | _, .bad, _ => "bad-op"
+  | _, _, strs@(_ :: _) => "ok " ++ " ".intercalate strs
+  | _, .unit, _ => "ok"
+  | _, .bool b, _ => "ok " ++ showBool b
+  | _, .int n, _ => s!"ok {n}"
+  | .base (.all i), .elems l, _ =>
     let unordered := match regs[i]? with
-      | some s => isUnordered s
+      | some s => isUnordered s.set
       | none => false
     "ok " ++ showIntList (if unordered then isort ltI l else l)
-  | _, .elems l => "ok " ++ fmtSet l
-  | _, .opt (some v) => s!"ok some {v}"
-  | _, .opt none => "ok none"
-  | _, .elems2 l₁ l₂ => "ok " ++ fmtSet l₁ ++ " " ++ fmtSet l₂
-  | _, .bad => "bad-op"
+  | _, .elems l, _ => "ok " ++ showIntList l
+  | _, .opt (some v), _ => s!"ok some {v}"
+  | _, .opt none, _ => "ok none"
+  | _, .elems2 l₁ l₂, _ => "ok " ++ showIntList l₁ ++ " " ++ showIntList l₂
 
 /-- result line and new state of one op; `none` = malformed op -/
 def step (st : St) (ws : List String) : Option (Outcome (St × String)) :=
@@ -181,45 +216,40 @@ def step (st : St) (ws : List String) : Option (Outcome (St × String)) :=
     | .diverge => some .diverge
   match parseOp ws with
   | some op =>
-    lift (stepOp shuffle (st.regs, st.g) op) fun ((regs, g), obs) =>
-      some (.ok ({ st with regs := regs, g := g }, showObs st.regs op obs))
+    lift (stepX shuffle pvI (st.regs, st.g) op) fun ((regs, g), obs, strs) =>
+      some (.ok ({ st with regs := regs, g := g }, showObs st.regs op obs strs))
   | none =>
     match ws with
-    | ["string", i] => do
-      let i ← parseNat? i; let s ← st.regs[i]?
-      some (.ok (st, "ok " ++ s.string (fun v => toString v)))
-    | "new" :: d :: k :: vs => do
-      -- New(callback, vals...)
-      let d ← parseNat? d; let vs ← parseInts vs
-      let impl ← match k.toList with
-        | [c] => implOf c
-        | _ => none
-      if d < st.regs.length then
-        lift (MSet.newWith impl vs) fun s => some (.ok ({ st with regs := st.regs.set d s }, "ok"))
-      else none
     | ["powermut", i, _] => do
       -- Powerset, then the harness edits every member (values cannot alias in the Model): only the size
       let i ← parseNat? i; let s ← st.regs[i]?
-      lift (s.powerset shuffle st.g) fun (ps, g) => some (.ok ({ st with g := g }, s!"ok {ps.size}"))
+      lift (s.set.powerset shuffle st.g) fun (ps, g) => some (.ok ({ st with g := g }, s!"ok {ps.size}"))
     | ["partmut", i, _] => do
       let i ← parseNat? i; let s ← st.regs[i]?
-      lift (s.partitions shuffle st.g) fun (ps, g) => some (.ok ({ st with g := g }, s!"ok {ps.size}"))
+      lift (s.set.partitions shuffle st.g) fun (ps, g) => some (.ok ({ st with g := g }, s!"ok {ps.size}"))
     | ["powerset", i] => do
       let i ← parseNat? i; let s ← st.regs[i]?
-      lift (s.powerset shuffle st.g) fun (ps, g) =>
+      lift (s.set.powerset shuffle st.g) fun (ps, g) =>
         let subsets := isort ltL (ps.members.map canonMembers)
         some (.ok ({ st with g := g }, s!"ok {ps.size} {showLL subsets}"))
     | ["partitions", i] => do
       let i ← parseNat? i; let s ← st.regs[i]?
-      lift (s.partitions shuffle st.g) fun (ps, g) =>
+      lift (s.set.partitions shuffle st.g) fun (ps, g) =>
         let parts := isort ltLL (ps.members.map fun p => isort ltL (p.members.map canonMembers))
         some (.ok ({ st with g := g }, s!"ok {ps.size} {showLLL parts}"))
+    | ["powerstr", i] => do
+      -- Powerset(s).String()
+      let i ← parseNat? i; let s ← st.regs[i]?
+      lift (s.powerset shuffle st.g) fun (ps, g) => some (.ok ({ st with g := g }, "ok " ++ ps.string))
+    | ["partstr", i] => do
+      let i ← parseNat? i; let s ← st.regs[i]?
+      lift (s.partitions shuffle st.g) fun (ps, g) => some (.ok ({ st with g := g }, "ok " ++ ps.string))
     | _ => none
 
 def runReg (hdr : List String) (ops : List String) : List String := Id.run do
   let kinds := (headerGet hdr "regs").getD ""
   let some impls := kinds.toList.mapM implOf | return ops.map fun _ => "bad-case"
-  let mut st : St := { regs := impls.map MSet.new, g := (headerNat hdr "sh" 0).toUInt32 }
+  let mut st : St := { regs := impls.map fun impl => ⟨MSet.new impl, defaultStringFormat pvI⟩, g := (headerNat hdr "sh" 0).toUInt32 }
   let mut out : Array String := #[]
   for line in ops do
     if st.dead then out := out.push "skip"; continue
